@@ -4,7 +4,7 @@ open GIV GIV.Txtar GIV.Fsx Driver
 
 /-! Line protocol of the fsx group (property C15).
 
-  clean <hex path>                              -> <hex of cleanPath>
+  clean <hex path>                              -> <hex of cleanPath> <hex of cleanBytes>
   write <hex dir> <fs> <archive>                -> err=<e> fs=<fs>
   x     <hex dir> <fs> <hex archive text>       -> panic | err=<e> fs=<fs>          (txtar-x)
   save  <a><q> <tree>                           -> panic | A=<archive> F=<hex text>  (txtar-c; a,q ∈ {0,1})
@@ -125,7 +125,7 @@ def step (line : String) : String :=
   match line.splitOn " " with
   | ["clean", h] =>
     match fromHex h with
-    | some p => toHex (cleanPath p)
+    | some p => toHex (cleanPath p) ++ " " ++ toHex (cleanBytes p)
     | none => "bad-op"
   | ["write", dh, fsE, aE] =>
     match fromHex dh, parseFS fsE, parseArchiveEnc aE with
